@@ -220,7 +220,7 @@ def run(ctx, rep):
         g8 = prog.cls(cn_).methods.get(mn_)
         if g8 is None:
             continue
-        own8 = eff8.own_effects(g8, g8.node.body)
+        own8 = [(n_, d_) for n_, d_ in eff8.own_effects(g8, g8.node.body) if d_.split()[1].startswith("self.")]
         rep.check(not own8, "R8", key(g8, None, "exposure is computed from the orders on every call, nothing is remembered"), g8,
                   own8[0][0] if own8 else None, "; ".join(d for _, d in own8[:3]))
     bad = []
